@@ -5,19 +5,18 @@
      * after n >= 1 rounds  -2 ulp <= guess - sqrt d <= 2^-n + 4 ulp  (g' - s = (g - s)^2 / (2 g) + rounding);
      * when the loop stops because the correction is <= 1 ulp, |d/g - g| <= 4 ulp, hence |g - s| <= 4 ulp and the result is
        within 5 ulp; when it stops because the 300 rounds are used up, 2^-300 + 4 ulp <= 5 ulp.
-   Result (approx_sqrt_bound): |ApproxSqrt(d) - sqrt d| <= 5e-18.  Reals axioms only (Interval for 2^-300 <= 1e-18). *)
+   Result (approx_sqrt_bound): |ApproxSqrt(d) - sqrt d| <= 5e-18.  Reals axioms only. *)
 From Coq Require Import ZArith Reals Lra Lia Bool.
-From Interval Require Import Tactic.
 From Osmo Require Import Base.DecModel C13.Common C13.Pow C13.RoundProofs C13.PowProofs C13.PowBound Gen.C13_consts.
 Open Scope R_scope.
 
 Lemma u18_small : u18 <= / 10 ^ 18.
 Proof. unfold u18. rewrite T18_val. lra. Qed.
 Lemma u18_le : u18 <= 1 / 1000.
-Proof. unfold u18. rewrite T18_val. interval. Qed.
+Proof. unfold u18. rewrite T18_val. lra. Qed.
 
 Lemma half_pow_300 : (1 / 2) ^ 300 <= u18.
-Proof. unfold u18. rewrite T18_val. interval. Qed.
+Proof. unfold u18. rewrite T18_val. lra. Qed.
 
 (* truncated halving *)
 Lemma quot2_spec : forall z, (Z.abs (2 * Z.quot z 2 - z) <= 1)%Z /\ ((Z.abs (Z.quot z 2) <= 1)%Z -> (Z.abs z <= 3)%Z).
